@@ -24,6 +24,7 @@ from pyvc.symex import FuncRef
 OG, CT, PEN, UNI = "c14_OGlyph", "c14_Contour", "c14_Pen", "c14_OUniverse"
 CONTOURS = List(Ref(CT))
 
+_OTHERS = {}  # run-time side table: id(glyph) -> the other glyphs of its font (ufoLib2 glyphs have slots and no back-reference)
 cls(CT, notes="a contour object (its points are never inspected by ufo2ft code here)")
 
 
@@ -67,7 +68,8 @@ cls(OG, fields={"name": STR, "contours": CONTOURS, "components": List(INT)},
     iter=_glyph_iter, length=lambda ex, st, self: Val(INT, z3.Length(lift(ex.read_field(st, self, "contours")))),
     absent=("appendContour",),
     derived={"universe": lambda ex, st, self: Val(Set(Ref(OG)), z3.K(T.RefSort, z3.BoolVal(True)))},
-    views={"contours": lambda o: list(o.contours), "components": lambda o: [0] * len(o.components), "universe": lambda o: []},
+    views={"contours": lambda o: list(o.contours), "components": lambda o: [0] * len(o.components),
+           "universe": lambda o: [__import__("pyvc.rt", fromlist=["Proxy"]).Proxy(x, CLASSES[OG]) for x in [o] + _OTHERS.get(id(o), [])]},
     notes="a ufoLib2 glyph as the contour filters see it: the list of contour objects, `len(glyph)` = number of contours, iteration = the contours, "
     "getPointPen()/getPen() = a pen drawing into this glyph, clearContours(); no appendContour (ufoLib2)")
 cls(PEN, fields={"target": Ref(OG)}, notes="a (point) pen: everything drawn into it becomes a contour of its target glyph")
@@ -87,7 +89,9 @@ def _ref(q, obj=None):
 _FRAME = "all(x.contours == old(x.contours) for x in glyph.universe if x != glyph)"
 _UNTOUCHED = "result == (len(old(glyph.contours)) != 0) and implies(not result, glyph.contours == old(glyph.contours))"
 cls("c14_FOptions", fields={"reverseDirection": BOOL, "allQuadratic": BOOL}, notes="options of the CubicToQuadratic filter (passed on to the pen)")
-cls("c14_FCtx", fields={"absoluteError": REAL, "stats": Dict(STR, INT)}, notes="context of the CubicToQuadratic filter (passed on to the pen)")
+cls("c14_OGlyphSet", fields={"objs": Map(STR, Ref(OG))}, getitem=lambda ex, st, self, idx, node: Val(Ref(OG), z3.Select(lift(ex.read_field(st, self, "objs")), lift(idx, STR))),
+    notes="the glyph set in the filter's context (name -> glyph); the contour filters do not consult it")
+cls("c14_FCtx", fields={"absoluteError": REAL, "stats": Dict(STR, INT), "glyphSet": Ref("c14_OGlyphSet")}, notes="the filter's context: glyph set; absoluteError / stats of the CubicToQuadratic filter (passed on to the pen)")
 
 
 def _union(ex, st, args, kwargs, node):
@@ -118,6 +122,8 @@ def contour_filter(target, glob, loops=True, extra=None):
         ensures={
             # False exactly for a glyph without contours, which is then untouched  (=> a changed glyph is reported: F2)
             "false-iff-no-contours-and-then-untouched": _UNTOUCHED,
+            # no other glyph's contours change (also enforced for every object by the engine's `modifies` obligation)
+            "other-glyphs-untouched": _FRAME,
             **(extra or {}),
         },
         canaries={"always-true": "result", "contours-kept": "glyph.contours == old(glyph.contours)"},
@@ -200,6 +206,7 @@ def _glyph_build(filter_path):
         mod, qn = filter_path.split(":")
         f = getattr(importlib.import_module(mod), qn)()
         f.set_context(font, {x.name: x for x in font})
+        _OTHERS[id(g)] = [x for x in font if x is not g]
         return {"self": f, "glyph": g}
 
     return build
